@@ -166,9 +166,20 @@ class Interp:
             if op == "!":
                 t = truth(v)
                 return None if t is None else (0 if t else 1)
+            if isinstance(v, int) and op in ("~", "-", "+"):
+                r = {"~": ~v, "-": -v, "+": v}[op]
+                return self._wrap(fn, n, r)
             return None
         if k == "BinaryOperator":
             op = n.get("op")
+            if op in ("+", "-", "*", "&", "|", "^", "<<", ">>"):
+                a = self.eval(fn, n["c"][0], st)
+                b = self.eval(fn, n["c"][1], st)
+                if isinstance(a, int) and isinstance(b, int) and not (op in ("<<", ">>") and not 0 <= b < 64):
+                    r = {"+": a + b, "-": a - b, "*": a * b, "&": a & b, "|": a | b, "^": a ^ b,
+                         "<<": a << b if op == "<<" else 0, ">>": a >> b if op == ">>" else 0}[op]
+                    return self._wrap(fn, n, r)
+                return None
             if op in ("==", "!="):
                 a = self.eval(fn, n["c"][0], st)
                 b = self.eval(fn, n["c"][1], st)
@@ -207,6 +218,15 @@ class Interp:
         if k == "CallExpr":
             return self.call_value(fn, n, st)
         return None
+
+    def _wrap(self, fn, n, r):
+        t = fn.tu.types[n["t"]] if n.get("t") is not None else {}
+        w = t.get("w")
+        if t.get("int") and w:
+            r &= (1 << w) - 1
+            if t.get("sg") and r >= 1 << (w - 1):
+                r -= 1 << w
+        return r
 
     def call_value(self, fn, n, st):
         """value returned by a small side-effect-free helper with a body in this unit (dt_sandwich_p & co):
@@ -503,6 +523,11 @@ class Interp:
                 else:
                     if v is None and self.store_hook is not None:
                         v = self.store_hook(fn, strip_lv(lhs))
+                    if isinstance(v, int) and loc[2] < 64:
+                        lt = fn.tu.types[strip_lv(lhs)["t"]] if strip_lv(lhs).get("t") is not None else {}
+                        v &= (1 << loc[2]) - 1
+                        if lt.get("sg") and v >= 1 << (loc[2] - 1):
+                            v -= 1 << loc[2]
                     st.set(loc, v)
         elif k == "CompoundAssignOperator" or (k == "UnaryOperator" and n.get("op") in ("++", "--")):
             loc = self.loc_of(fn, n["c"][0]) or self._ptr_loc(fn, n["c"][0])
